@@ -88,6 +88,10 @@ def decode(data: bytes) -> dict:
     if d.p(0.3):
         case["extra"] = {"foo": d.i(0, 9)}
     case["probe_private"] = d.p(0.5)
+    if d.p(0.3):
+        # another client is already connected (to this pool, or to another pool's server in the same process): idle, or in the
+        # middle of a command whose method waits
+        case["neighbour"] = d.pick(["same-pool-waiting", "other-pool-waiting", "same-pool-idle", "same-pool-waiting"])
     return case
 
 
@@ -161,6 +165,10 @@ class C16Engine(Engine):
                     for k in ("members", "suffix", "postponed", "depth"):
                         c.pop(k, None)
                 out.append(c)
+        if case.get("neighbour"):
+            c = copy.deepcopy(case)
+            del c["neighbour"]
+            out.append(c)
         for k in ("extra", "name"):
             if case.get(k) is not None:
                 c = copy.deepcopy(case)
@@ -191,6 +199,14 @@ class C16Engine(Engine):
             if case.get("name"):
                 kw["name"] = case["name"]
             pool = cls(hmod.quick, **kw) if case["base"] == "SimpleTaskPool" else cls(**kw)
+            if case.get("neighbour"):
+                from asyncio_taskpool import TaskPool as _TP
+                nb = Sess(pool if case["neighbour"].startswith("same") else _TP(name="neighbour"), width=80)
+                await nb.start()
+                if case["neighbour"].endswith("waiting"):
+                    nb.feed("until-closed")
+                    await settle()
+                labels.append("neighbour:" + case["neighbour"])
             s = Sess(pool, width=case["width"], extra=case.get("extra"))
             await s.start()
             if s.handshake_error is not None:
